@@ -89,6 +89,14 @@ package seclang
 //@     val == unquoted(trimSpace(ite(keyEnd(s, b) == segEnd(s, b), "", s[keyEnd(s, b)+1:segEnd(s, b)])))
 
 //@ func parseActions props C16,C07
+// completeness: every top-level segment is handed to appendRuleAction, once and whole: a call is made with exactly the text
+// of the segment that starts at the beginning of the list or just after the previous top-level ',' (key: the text up to the
+// segment's first top-level ':', value: the text after it, up to the segment end); every top-level ',' ends such a segment
+// (step everyComma: it becomes the new segment boundary, which happens only after the call), and the call after the loop
+// takes the last segment (after lastSegment). Clause `each` then says what becomes of a supplied action.
+//@   at call "appendRuleAction(" requires segment: (beforeKey == -1 || topLevel(actions, beforeKey, ',')) &&
+//@       arg(1) == actions[beforeKey+1:keyEnd(actions, beforeKey+1)] &&
+//@       arg(2) == ite(keyEnd(actions, beforeKey+1) == segEnd(actions, beforeKey+1), "", actions[keyEnd(actions, beforeKey+1)+1:segEnd(actions, beforeKey+1)])
 //@   ensures each: isnil(result1) ==> (forall j int :: 0 <= j && j < len(result0) ==>
 //@       (exists b int :: isActionAt(actions, b, result0[j].Key, result0[j].Value)))
 //@   ensures atMostOneDisruptive: isnil(result1) ==> (forall j int, k int :: 0 <= j && j < k && k < len(result0) ==>
@@ -111,6 +119,11 @@ package seclang
 //@     invariant forall j int :: 0 <= j && j < len(res) ==> (exists b int :: isActionAt(actions, b, res[j].Key, res[j].Value))
 //@     invariant forall j int :: 0 <= j && j < len(res) ==> !isnil(res[j].F) && res[j].Atype == actionType(res[j].F)
 //@     decreases len(actions) - i
+//@     step everyComma: beforeKey == prev(ite(topLevel(actions, i, ','), i, beforeKey)) && i == prev(i) + 1
+// when the scan ends, what follows the last boundary is one whole segment (it is handed over by the call after the loop:
+// key actions[beforeKey+1:afterKey or len], value actions[afterKey+1:])
+//@     after lastSegment: len(actions) >= 1 ==> (beforeKey == -1 || topLevel(actions, beforeKey, ',')) && segEnd(actions, beforeKey+1) == len(actions) &&
+//@         keyEnd(actions, beforeKey+1) == ite(afterKey == -1, len(actions), afterKey)
 
 // ---------------------------------------------------------------- SecRule line: targets, quoted operator, quoted actions
 
@@ -153,16 +166,154 @@ package seclang
 //@   ensures rejectsOneToken: (forall k int :: 0 <= k && k < len(data) ==> data[k] != ' ') ==> !isnil(err)
 //@   ensures failed: !isnil(err) ==> op == "" && actions == ""
 
-// ---------------------------------------------------------------- targets and operator (safety of the scanners)
+// ---------------------------------------------------------------- targets (C16): scanner of the target list
+
+// Scanner state of ParseVariables over the target list s, defined by recursion over the positions the scanner looks at
+// (it starts at 0; after an item end it continues at pvNext). Modes: 0 variable name, 1 key, 2 regex key /../, 3 xpath key.
+//   pvC(s,i)     the byte at position i                          pvMode(s,i) mode when the scanner is at position i
+//   pvEsc(s,i)   the bytes before i end with an unescaped backslash (regex key only)
+//   pvQuo(s,i)   a ' was seen in the key                         pvNeg/pvCnt a '!' / '&' was seen in the name part
+//   pvKs(s,i)    first key position (just after the item's ':')  pvRx(s,i)   position of the '/' that opened the regex key
+//   pvName/pvKey the name / key bytes collected before position i
+//   pvBr(s,i)    number of consecutive backslashes just before position i (= bsRun(s, i-1) of internal/strings)
+// Solver hygiene, no meaning: the state functions pvModeF.. carry a third argument that is always 0: pvMode(s,i) is short for
+// pvModeF(s,i,pvT(s,i)) with pvT(s,i) == 0, and the definitions state the successor values as pvModeF(s,i+1,0). pvC is defined
+// through s[i:i+1] and used instead of s[i]. Both only make the solvers instantiate the recursive definitions at the positions
+// a proof talks about (terms pvT(s,i) / pvC(s,i)) instead of along the whole string and at every byte of every string they meet
+// (without this every obligation of the unit needs 10-100 times longer); invariant `chr` ties pvC to vars[i].
+//@ spec pvC(s string, i int) int
+//@ spec pvT(s string, i int) int
+//@ spec pvModeF(s string, i int, t int) int
+//@ spec pvEscF(s string, i int, t int) bool
+//@ spec pvQuoF(s string, i int, t int) bool
+//@ spec pvNegF(s string, i int, t int) bool
+//@ spec pvCntF(s string, i int, t int) bool
+//@ spec pvKsF(s string, i int, t int) int
+//@ spec pvRxF(s string, i int, t int) int
+//@ spec pvNameF(s string, i int, t int) string
+//@ spec pvKeyF(s string, i int, t int) string
+//@ spec pvBrF(s string, i int, t int) int
+//@ define pvMode(s string, i int) int := pvModeF(s, i, pvT(s, i))
+//@ define pvEsc(s string, i int) bool := pvEscF(s, i, pvT(s, i))
+//@ define pvQuo(s string, i int) bool := pvQuoF(s, i, pvT(s, i))
+//@ define pvNeg(s string, i int) bool := pvNegF(s, i, pvT(s, i))
+//@ define pvCnt(s string, i int) bool := pvCntF(s, i, pvT(s, i))
+//@ define pvKs(s string, i int) int := pvKsF(s, i, pvT(s, i))
+//@ define pvRx(s string, i int) int := pvRxF(s, i, pvT(s, i))
+//@ define pvName(s string, i int) string := pvNameF(s, i, pvT(s, i))
+//@ define pvKey(s string, i int) string := pvKeyF(s, i, pvT(s, i))
+//@ define pvBr(s string, i int) int := pvBrF(s, i, pvT(s, i))
+//@ define pvIn(s string, i int) bool := 0 <= i && i < len(s)
+//@ axiom pvCDef: forall s string, i int :: pvIn(s, i) ==> pvC(s, i) == s[i:i+1][0]
+//@ axiom pvTDef: forall s string, i int :: pvT(s, i) == 0
+// pvEnd(s,i): position i is the last position of its item: a '|' outside a regex key, or the '/' that closes a regex key:
+// the first one that is not escaped, i.e. preceded by an EVEN number of backslashes ("\\" is an escaped backslash, the '/'
+// after it closes: invariant escParity), or the last byte of the list. pvNext: where the scan continues (the separator after
+// a closing '/', and the closing quote of a quoted key, are stepped over).
+//@ define pvEnd(s string, i int) bool := (pvC(s, i) == '|' && pvMode(s, i) != 2) || i+1 >= len(s) || (pvMode(s, i) == 2 && pvC(s, i) == '/' && !pvEsc(s, i))
+//@ define pvNext(s string, i int) int := i + 1 + ite(pvQuo(s, i), 2, ite(pvMode(s, i) == 2, 1, 0))
+// pvXp(s,i): an XML: / JSON: key starts here: it is taken verbatim (xpath), '/' and quotes have no meaning in it.
+//@ define pvXp(s string, i int) bool := len(pvKey(s, i)) == 0 && (pvName(s, i) == "XML" || pvName(s, i) == "JSON")
+//@ define pvFlag(c int) bool := c == '!' || c == '&'
+// what an item hands over when it ends at i: the collected bytes plus the last byte of the list when the item ends there
+//@ define pvEndName(s string, i int) string := ite(pvMode(s, i) == 0 && pvC(s, i) != '|', pvName(s, i) + unit(pvC(s, i)), pvName(s, i))
+//@ define pvEndKey(s string, i int) string := ite(pvMode(s, i) != 0 && pvMode(s, i) != 2 && pvC(s, i) != '|' && pvC(s, i) != '/', pvKey(s, i) + unit(pvC(s, i)), pvKey(s, i))
+//@ axiom pvInit: forall s string :: pvModeF(s, 0, 0) == 0 && !pvEscF(s, 0, 0) && !pvQuoF(s, 0, 0) && !pvNegF(s, 0, 0) && !pvCntF(s, 0, 0) &&
+//@     pvNameF(s, 0, 0) == "" && pvKeyF(s, 0, 0) == "" && pvBrF(s, 0, 0) == 0
+//@ axiom pvAtEnd: forall s string, i int :: pvIn(s, i) && pvEnd(s, i) ==> pvModeF(s, pvNext(s, i), 0) == 0 && pvEscF(s, pvNext(s, i), 0) == pvEsc(s, i) &&
+//@     !pvQuoF(s, pvNext(s, i), 0) && !pvNegF(s, pvNext(s, i), 0) && !pvCntF(s, pvNext(s, i), 0) &&
+//@     pvNameF(s, pvNext(s, i), 0) == "" && pvKeyF(s, pvNext(s, i), 0) == ""
+// the escape state TOGGLES on every backslash of a regex key (pvC(s,i) == '\\' && !pvEsc(s,i)) and is cleared by any other byte
+//@ axiom pvStep: forall s string, i int :: pvIn(s, i) && !pvEnd(s, i) ==>
+//@     pvModeF(s, i+1, 0) == ite(pvMode(s, i) == 0, ite(pvC(s, i) == ':', 1, 0), ite(pvMode(s, i) == 1, ite(pvXp(s, i), 3, ite(pvC(s, i) == '/', 2, 1)), pvMode(s, i))) &&
+//@     pvEscF(s, i+1, 0) == ite(pvMode(s, i) == 2, pvC(s, i) == '\\' && !pvEsc(s, i), pvEsc(s, i)) &&
+//@     pvQuoF(s, i+1, 0) == (pvQuo(s, i) || (pvMode(s, i) == 1 && !pvXp(s, i) && pvC(s, i) == '\'')) &&
+//@     pvNegF(s, i+1, 0) == (pvNeg(s, i) || (pvMode(s, i) == 0 && pvC(s, i) == '!')) &&
+//@     pvCntF(s, i+1, 0) == (pvCnt(s, i) || (pvMode(s, i) == 0 && pvC(s, i) == '&')) &&
+//@     pvKsF(s, i+1, 0) == ite(pvMode(s, i) == 0 && pvC(s, i) == ':', i+1, pvKs(s, i)) &&
+//@     pvRxF(s, i+1, 0) == ite(pvMode(s, i) == 1 && !pvXp(s, i) && pvC(s, i) == '/', i, pvRx(s, i)) &&
+//@     pvNameF(s, i+1, 0) == ite(pvMode(s, i) == 0 && !pvFlag(pvC(s, i)) && pvC(s, i) != ':', pvName(s, i) + unit(pvC(s, i)), pvName(s, i)) &&
+//@     pvKeyF(s, i+1, 0) == ite(pvMode(s, i) == 0 || (pvMode(s, i) == 1 && !pvXp(s, i) && (pvC(s, i) == '/' || pvC(s, i) == '\'')), pvKey(s, i), pvKey(s, i) + unit(pvC(s, i)))
+//@ axiom pvBrStep: forall s string, i int :: pvIn(s, i) ==> pvBrF(s, i+1, 0) == ite(pvC(s, i) == '\\', pvBr(s, i) + 1, 0)
 
 //@ func (*RuleParser).ParseVariables props C16,C07
 //@   requires rp.rule != nil
-//@   loop 1 vars i
+//@   loop 1 vars i, curr, isNegation, isCount, curVar, curKey, isEscaped, isquoted
 //@     invariant 0 <= i
 //@     invariant rp.rule == old(rp.rule)
+//@     invariant 0 <= curr && curr <= 3
+//@     invariant chr: i < len(vars) ==> pvC(vars, i) == vars[i]
+//@     invariant mode: i < len(vars) ==> curr == pvMode(vars, i)
+//@     invariant esc: i < len(vars) ==> isEscaped == pvEsc(vars, i)
+// so the escape flag is the parity of the backslash run before i, and nothing is escaped outside a regex key
+//@     invariant escParity: i < len(vars) && curr == 2 ==> (isEscaped <==> pvBr(vars, i) % 2 == 1)
+//@     invariant escOnlyInRegex: i < len(vars) && curr != 2 ==> !isEscaped
+//@     invariant quo: i < len(vars) ==> isquoted == pvQuo(vars, i)
+//@     invariant neg: i < len(vars) ==> isNegation == pvNeg(vars, i)
+//@     invariant cnt: i < len(vars) ==> isCount == pvCnt(vars, i)
+//@     invariant name: i < len(vars) ==> str(curVar) == pvName(vars, i)
+//@     invariant key: i < len(vars) ==> str(curKey) == pvKey(vars, i)
+//@     invariant apart: cap(curVar) == 0 || cap(curKey) == 0 || base(curVar) != base(curKey)
+// what the scanner state means in terms of the input text (lemmas over the definitions above): the key starts just after
+// the item's ':'; a plain or xpath key is exactly the text after it; a regex key that starts there (or after an opening
+// quote) is exactly the text between the opening '/' and i, '|' and escaped '/' included
+//@     invariant keyEmptyInName: curr == 0 ==> len(curKey) == 0
+//@     invariant keyStart: i < len(vars) && curr != 0 ==> 1 <= pvKs(vars, i) && pvKs(vars, i) <= i && vars[pvKs(vars, i)-1] == ':'
+//@     invariant keyEmptyAtStart: i < len(vars) && curr == 1 && (i == pvKs(vars, i) || (i == pvKs(vars, i) + 1 && vars[pvKs(vars, i)] == '\'')) ==> len(curKey) == 0
+//@     invariant plainKey: i < len(vars) && (curr == 1 || curr == 3) && !isquoted ==> pvKey(vars, i) == vars[pvKs(vars, i):i]
+//@     invariant regexOpen: i < len(vars) && curr == 2 ==> pvKs(vars, i) <= pvRx(vars, i) && pvRx(vars, i) < i && vars[pvRx(vars, i)] == '/'
+//@     invariant regexKey: i < len(vars) && curr == 2 && (pvRx(vars, i) == pvKs(vars, i) || (pvRx(vars, i) == pvKs(vars, i) + 1 && vars[pvKs(vars, i)] == '\'')) ==>
+//@         pvKey(vars, i) == vars[pvRx(vars, i)+1:i]
+//@     step advance: i == prev(ite(pvEnd(vars, i), pvNext(vars, i), i+1))
+// One call per item, made at the item's last position, with the item's name, key and flags:
+// the name given to variables.Parse and the key given to AddVariable / AddVariableNegation are the collected bytes plus the
+// last byte of the list when the item ends there (pvEndName / pvEndKey); '!' selects AddVariableNegation, '&' is the count flag.
+//@   at call "variables.Parse(" requires itemName: pvEnd(vars, i) && arg(0) == pvEndName(vars, i)
+// (the calls below come after the scanner has stepped over the closing '/' or quote: prev(..) = at the item's last position)
+//@   at call "fmt.Sprintf(" requires regexKeyText: prev(pvMode(vars, i)) == 2 && key == prev(pvKey(vars, i))
+//@   at call "fmt.Sprintf(" requires betweenSlashes: prev(pvRx(vars, i) == pvKs(vars, i) || (pvRx(vars, i) == pvKs(vars, i) + 1 && vars[pvKs(vars, i)] == '\'')) ==>
+//@       key == prev(vars[pvRx(vars, i)+1:i])
+//@   at call "AddVariable(" requires atItemEnd: prev(pvEnd(vars, i) && !pvNeg(vars, i)) && arg(3) == prev(pvCnt(vars, i))
+//@   at call "AddVariable(" requires itemKey: prev(pvMode(vars, i)) != 2 ==> arg(2) == prev(pvEndKey(vars, i))
+//@   at call "AddVariableNegation(" requires atItemEnd: prev(pvEnd(vars, i) && pvNeg(vars, i))
+//@   at call "AddVariableNegation(" requires itemKey: prev(pvMode(vars, i)) != 2 ==> arg(2) == prev(pvEndKey(vars, i))
+// Nothing is silently altered (C16): clauses that the scanner does NOT satisfy today (each confirmed on the real code):
+//   strictRegexClosed      `ARGS:/abc`  is accepted as the regex key /ab/ (unterminated regex, last byte dropped)
+//   strictKeyComplete      `ARGS:foo/`  is accepted as key "foo", `ARGS:/` as the whole collection, `XML://a/` as "//a"
+//   strictSeparator        `ARGS:/a/XARGS_GET` is accepted as ARGS:/a/ and ARGS_GET (the byte after the closing '/' is skipped unseen)
+//   strictRegexAtKeyStart  `ARGS:a/b/`  is accepted as the regex key /ab/, `ARGS:a/b` as /a/
+//   strictQuotedKey        `ARGS:'foo'` is accepted as key "foo'" (quotes are only understood around a regex key)
+//@   at call "rp.rule.AddVariable" requires strictRegexClosed: prev(pvMode(vars, i) == 2 ==> vars[i] == '/' && !pvEsc(vars, i))
+//@   at call "rp.rule.AddVariable" requires strictKeyComplete: prev(pvMode(vars, i) == 1 || pvMode(vars, i) == 3 ==> vars[i] != '/')
+//@   at call "rp.rule.AddVariable" requires strictSeparator: prev(pvMode(vars, i) == 2 ==>
+//@       (!pvQuo(vars, i) && i+1 < len(vars) ==> vars[i+1] == '|') && (pvQuo(vars, i) && i+2 < len(vars) ==> vars[i+2] == '|'))
+//@   at call "rp.rule.AddVariable" requires strictRegexAtKeyStart: prev(pvMode(vars, i) == 2 ==>
+//@       pvRx(vars, i) == pvKs(vars, i) || (pvRx(vars, i) == pvKs(vars, i) + 1 && vars[pvKs(vars, i)] == '\''))
+//@   at call "rp.rule.AddVariable" requires strictQuotedKey: prev(pvQuo(vars, i) ==> pvMode(vars, i) == 2)
+
+// ---------------------------------------------------------------- operator text (C16)
+// opNorm(o): the operator text with the default operator made explicit: "@rx " is put in front of a text that names no
+// operator, after a leading '!' (negation) if there is one. The operator token is opNorm(o) up to its first space, the
+// operator name is that token without its "@" / "!@" prefix, the arguments are the rest with surrounding white space removed.
+//@ define opNeg(o string) bool := len(o) >= 1 && o[0] == '!'
+//@ define opExplicit(o string) bool := (len(o) >= 1 && o[0] == '@') || (len(o) >= 2 && o[0] == '!' && o[1] == '@')
+//@ define opNorm(o string) string := ite(opExplicit(o), o, ite(opNeg(o), ite(len(o) == 1, "!@rx", "!@rx " + o[1:len(o)]), "@rx " + o))
+// firstToken(t, n): t is n up to (not including) its first space, all of n when it has none
+//@ define firstToken(t string, n string) bool := len(t) <= len(n) && t == n[0:len(t)] && (forall k int :: 0 <= k && k < len(t) ==> t[k] != ' ') &&
+//@     (len(t) == len(n) || n[len(t)] == ' ')
+//@ define opStrip(t string) string := ite(len(t) >= 1 && t[0] == '@', t[1:len(t)], ite(len(t) > 2 && t[0] == '!' && t[1] == '@', t[2:len(t)], t))
 
 //@ func (*RuleParser).ParseOperator props C16,C07
 //@   requires rp.rule != nil
+//@   at call "strings.Cut(" requires normalForm: arg(0) == opNorm(old(operator)) && arg(1) == " "
+//@   at call "operators.Get(" requires token: firstToken(opRaw, opNorm(old(operator)))
+//@   at call "operators.Get(" requires name: arg(0) == opStrip(trimSpace(opRaw))
+//@   at call "operators.Get(" requires defaultRx: !opExplicit(old(operator)) ==> arg(0) == "rx"
+//@   at call "operators.Get(" requires noArguments: len(opRaw) == len(opNorm(old(operator))) ==> opdata == trimSpace("")
+//@   at call "operators.Get(" requires arguments: len(opRaw) < len(opNorm(old(operator))) ==> opdata == trimSpace(opNorm(old(operator))[len(opRaw)+1:len(opNorm(old(operator)))])
+//@   at call "operators.Get(" requires argumentsPassed: arg(1).Arguments == opdata
+//@   at call "SetOperator(" requires stored: arg(2) == opRaw && arg(3) == opdata
+//@   at call "SetOperator(" requires negation: (len(arg(2)) >= 1 && arg(2)[0] == '!') <==> opNeg(old(operator))
 
 // ---------------------------------------------------------------- line assembly
 
@@ -221,3 +372,13 @@ package seclang
 // ---- build-cache keys (C13)
 //@ func directiveSecAuditLogRelevantStatus props C13
 //@   memoize re
+
+// ==== BEGIN id-list section (C17: "lists and ranges behave like the enumeration of their members") ====
+// A successful return from inside the loop over the listed ids/ranges is only allowed once no listed id is left.
+//@ func directiveSecRuleUpdateTargetByID props C17 nosafety
+//@   loop 1
+//@     returns everyListedIdApplied: isnil(result) ==> rangeindex + 1 == length - 2
+//@ func directiveSecRuleUpdateActionByID props C17 nosafety
+//@   loop 1
+//@     returns everyListedIdApplied: isnil(result) ==> rangeindex + 1 == idsOrRangesLen - 2
+// ==== END id-list section ====
